@@ -3,7 +3,7 @@ CANON = True
 
 import ast
 
-from .. import pyq
+from .. import pm, pyq
 from ..pysrc import dotted, norm, flat
 
 MO = "hy/models.py"
@@ -23,25 +23,25 @@ def check(ctx, src):
     ctx.check(g is not None and norm(g.test) == "not from_parser", "CTOR-SYMBOL", f"{MO}|Symbol.__new__|guard", f"validation runs under `{norm(g.test) if g else None}`; it must run for every non-parser input", MO, s.lineno,
               witness="Symbol('NaN') succeeds although reading NaN gives a Float", detail="not from_parser")
     t = flat(g) if g is not None else ""
-    ctx.check("sym = as_identifier(s)" in t and "if not isinstance(sym, Symbol): raise ValueError" in t and "return sym" in t, "CTOR-SYMBOL", f"{MO}|Symbol.__new__|via as_identifier", "Symbol must be validated by as_identifier and rejected unless that yields a Symbol", MO, s.lineno, detail="as_identifier(s) must be a Symbol")
+    ctx.check(g is not None and pm.find(g, "sym = as_identifier(s)\nif not isinstance(sym, Symbol):\n    raise ValueError(___)") is not None, "CTOR-SYMBOL", f"{MO}|Symbol.__new__|via as_identifier", "Symbol must be validated by as_identifier and rejected unless that yields a Symbol", MO, s.lineno, detail="as_identifier(s) must be a Symbol")
     ctx.check("from hy.reader.hy_reader import as_identifier" in t, "CTOR-SYMBOL", f"{MO}|Symbol.__new__|same function", "the validator is not the reader's as_identifier", MO, s.lineno, detail="imported from hy.reader.hy_reader")
     k = mo.func("Keyword.__init__")
     ctx.require(k is not None, "Keyword.__init__ not found")
     t = flat(k)
-    ctx.check("if not from_parser:" in t and "if value and ('.' in value or any((isnormalizedspace(c) for c in value)) or HyReader.NON_IDENT.intersection(value)): raise ValueError" in t, "CTOR-KEYWORD", f"{MO}|Keyword.__init__|predicate",
+    ctx.check(pm.find(k, "if not from_parser:\n    ...\n    if value and ('.' in value or any((isnormalizedspace(c) for c in value)) or HyReader.NON_IDENT.intersection(value)):\n        raise ValueError(___)") is not None, "CTOR-KEYWORD", f"{MO}|Keyword.__init__|predicate",
               "the keyword validity predicate changed", MO, k.lineno, witness="Keyword('a b') or Keyword('a.b') succeeds although `:a b` / `:a.b` do not read as that keyword", detail="'.', whitespace, NON_IDENT")
     ctx.check("from hy.reader.hy_reader import HyReader" in t and "from hy.reader.reader import isnormalizedspace" in t, "CTOR-KEYWORD", f"{MO}|Keyword.__init__|same objects", "the predicates are not the reader's own objects", MO, k.lineno, detail="HyReader.NON_IDENT, isnormalizedspace")
-    for cn, text in (("String", "if brackets is not None and f']{brackets}]' in value: raise ValueError"), ("FString", "if brackets is not None and _string_in_node(f']{brackets}]', value): raise ValueError")):
+    for cn, text in (("String", "if brackets is not None and f']{brackets}]' in value:\n    raise ValueError(___)"), ("FString", "if brackets is not None and _string_in_node(f']{brackets}]', value):\n    raise ValueError(___)")):
         f = mo.func(f"{cn}.__new__")
         ctx.require(f is not None, f"{cn}.__new__ not found")
         t = flat(f)
-        ctx.check(text in t, "CTOR-BRACKETS", f"{MO}|{cn}.__new__|closing delimiter", f"{cn} must reject content containing `]DELIM]` for every delimiter that is not None (the empty delimiter `#[[…]]` included)", MO, f.lineno,
+        ctx.check(pm.find(f, text) is not None, "CTOR-BRACKETS", f"{MO}|{cn}.__new__|closing delimiter", f"{cn} must reject content containing `]DELIM]` for every delimiter that is not None (the empty delimiter `#[[…]]` included)", MO, f.lineno,
                   witness=f"{cn}('a ]] b', brackets='') is accepted but does not read back", detail="brackets is not None and ]D] in value")
     ai = hr.func("as_identifier")
     ctx.require(ai is not None, "as_identifier not found")
     g = next((n for n in ai.body if isinstance(n, ast.If) and norm(n.test) == "reader is None"), None)
     t = flat(g) if g is not None else ""
-    ctx.check("if not ident or ident[0] in ':#' or any((isnormalizedspace(c) for c in ident)) or HyReader.NON_IDENT.intersection(ident): raise ValueError" in t, "CTOR-IDENT", f"{HR}|as_identifier|reader-less arm",
+    ctx.check(g is not None and pm.find(g, "if not ident or ident[0] in ':#' or any((isnormalizedspace(c) for c in ident)) or HyReader.NON_IDENT.intersection(ident):\n    raise ValueError(___)") is not None, "CTOR-IDENT", f"{HR}|as_identifier|reader-less arm",
               "the reader-less validity test of as_identifier changed", HR, ai.lineno, witness="Symbol('a b') or Symbol(':a') succeeds", detail="empty, leading : or #, whitespace, NON_IDENT")
     order = [norm(n.body[0]) for n in ai.body if isinstance(n, ast.Try)]
     ctx.check(order[:2] == ["return Integer(ident)", "return Float(ident)"], "CTOR-IDENT", f"{HR}|as_identifier|numeric first", "numeric readings must be tried before the symbol reading", HR, ai.lineno, witness="Symbol('5') succeeds", detail="Integer, Float, Complex first")
